@@ -167,6 +167,9 @@ class TorchBackend:
             converted_args = []
             needs_tensor = name in tensor_required_funcs
             for arg in args:
+                if isinstance(arg, numpy.generic):
+                    # numpy scalars (e.g. the truth value from comparing two atoms) are plain numbers
+                    arg = arg.item()
                 if isinstance(arg, numpy.ndarray):
                     # Handle float64 arrays on MPS by converting to float32
                     if arg.dtype == numpy.float64 and self.device.type == 'mps':
